@@ -9,18 +9,26 @@
                  slot i ([own = Z.of_nat i]).  Every engine starts as
                  [Model_ConsensusNode.init] (status Down, empty WALs) and is
                  started by the event [ERestart].
-     soup        every vote that exists in the network: the votes the Byzantine
-                 slots have injected ([byzsent]) and every vote a CORRECT engine
-                 has handed to the network (its ghost history [sent]; own votes
-                 carry stamp 0).  The soup only grows.
+     soup        the votes the Byzantine slots have injected ([byzsent]) and
+                 every vote a CORRECT engine has handed to the network by
+                 OSendVote (its ghost history [sent]; own votes carry stamp 0).
+     csoup       every vote that exists: [byzsent] and the vote records in the
+                 synced round WAL of the correct engines.  Both only grow.
      events      [NodeEv i (e, fz, delay)]: engine i processes the node-model
                  event e (message delivery, timeout, block-manager callback,
                  crash, restart) with crash point fz inside the event and the
                  enterNewRound delay flag — exactly the input of the node model;
                  [ByzSend v]: a Byzantine slot signs and publishes v.
-     legality    the network delivers only what was sent: a vote delivered for
+     legality    the network delivers only what exists: a vote delivered for
                  the current height ([EVote true v], flagged entries of
-                 [EVoteList]) must be in the soup.  Proposals, block parts,
+                 [EVoteList]) must be in [csoup] = the Byzantine votes and the
+                 own votes the correct engines have made durable (vote records in
+                 the synced round WAL).  [soup] (votes handed to the network by
+                 OSendVote) is a subset of it; a vote that was written and synced
+                 just before a crash was never broadcast by itself, but after the
+                 restart its signer holds it in its vote set and passes it on
+                 inside vote lists (OSendVoteList of doSendProposal), so it can
+                 reach everybody.  Proposals, block parts,
                  timeouts and callbacks are unconstrained (proposals play no role
                  for safety; blocks are abstract ids).  A Byzantine vote must name
                  a Byzantine slot as its signer (signatures are not forgeable) and
@@ -70,6 +78,26 @@ Definition vote_mem (v : vote) (l : list vote) : bool := existsb (vote_eqb v) l.
 Definition set_node (i : nat) (s : st) (net : netstate) : netstate :=
   mkNet (set_nth i s (nodes net)) (byzsent net).
 
+(* ------------------------------------------------------------------ durable own votes *)
+
+(* the own votes an engine has made durable: the vote records in the synced
+   prefix of its round WAL.  Every vote handed to the network is among them
+   (C02: durably remembered before sent); a vote that became durable just before
+   a crash is among them although it was never sent — after the restart the
+   engine counts it in its own vote sets. *)
+Definition cast_votes (s : st) : list vote :=
+  flat_map (fun r => match r with RVote v => [v] | _ => [] end) (w_synced (wal_r s)).
+
+Fixpoint csoup_from (byz : nat -> bool) (i : nat) (l : list st) : list vote :=
+  match l with
+  | [] => []
+  | s :: r => (if byz i then [] else cast_votes s) ++ csoup_from byz (S i) r
+  end.
+
+(* Byzantine votes and the durable votes of the correct engines *)
+Definition csoup (byz : nat -> bool) (net : netstate) : list vote :=
+  byzsent net ++ csoup_from byz 0 (nodes net).
+
 Section Net.
   Variable n : nat.                 (* number of validator slots *)
   Variable byz : nat -> bool.       (* Byzantine slots *)
@@ -109,7 +137,7 @@ Section Net.
     match e with
     | NodeEv i inp =>
         match nth_error (nodes net) i with
-        | Some s => if legal_event (soup net) (fst (fst inp))
+        | Some s => if legal_event (csoup byz net) (fst (fst inp))
                     then set_node i (node_step i s inp) net
                     else net
         | None => net                                  (* i >= n *)
